@@ -10,6 +10,11 @@
    [known_gaps] = the (kind, context) pairs that the current tree silently drops although they
                   are not in the fixed set: each kind listed there is a genuine finding of C07
                   (known_findings.d/C07.json has one entry per kind, with the witness script).
+                  Since the repair "fix: reject statements the transpiler cannot translate instead
+                  of dropping them" one kind is left: the documented host-side calls
+                  SerialMonitor.connect()/close().
+   [former_gaps] = the pairs that were listed until that repair; they are now REJECTED, which
+                  [pinned] demands.
    [pinned]     = what the supported subset must do (so that a mutation that starts rejecting or
                   dropping a supported statement changes a checked fact).
    No proofs in this file. *)
@@ -85,7 +90,8 @@ Inductive stmt_kind :=
 | K_try_finally
 | K_try_except_else
 | K_if_stmt
-| K_while_stmt.
+| K_while_stmt
+| K_serial_host_call.
 
 Inductive context := Top | Nested | Func | MainLoop.
 Inductive outcome := Translated | Rejected | Ignored.
@@ -162,6 +168,7 @@ Definition kind_id (k : stmt_kind) : nat :=
   | K_try_except_else => 66
   | K_if_stmt => 67
   | K_while_stmt => 68
+  | K_serial_host_call => 69
   end.
 Definition kind_eqb (a b : stmt_kind) : bool := Nat.eqb (kind_id a) (kind_id b).
 Definition ctx_id (c : context) : nat := match c with Top => 0 | Nested => 1 | Func => 2 | MainLoop => 3 end.
@@ -183,7 +190,7 @@ Definition all_kinds : list stmt_kind :=
    K_async_def; K_decorator; K_continue_in_while; K_continue_in_for; K_continue_outside_loop;
    K_break_in_while; K_break_in_for; K_break_outside_loop; K_while_else; K_for_else;
    K_for_over_list; K_for_over_name; K_for_range_1arg; K_for_range_2args; K_for_range_3args;
-   K_try_finally; K_try_except_else; K_if_stmt; K_while_stmt].
+   K_try_finally; K_try_except_else; K_if_stmt; K_while_stmt; K_serial_host_call].
 Definition all_contexts : list context := [Top; Nested; Func; MainLoop].
 
 Definition row_kind (r : row) : stmt_kind := fst (fst r).
@@ -197,15 +204,15 @@ Fixpoint lookup (k : stmt_kind) (c : context) (t : list row) : option outcome :=
   end.
 
 (* ------------------------------------------------------------ the fixed set of the property *)
-(* imports, the target() call, pass, global declarations (nonlocal is counted with them: a scope
-   declaration without any run-time meaning), comments, docstrings (any bare string literal),
-   host-only print *)
+(* imports, the target() call, pass, global declarations, comments, docstrings (any bare string
+   literal), host-only print.  (`nonlocal` was counted with the global declarations while the parser
+   dropped every unknown line; it has no valid use in the supported subset - Python refuses it
+   outside a nested function - and the repaired parser rejects it: pinned below.) *)
 Definition allowed (k : stmt_kind) : bool :=
   match k with
   | K_print_call
   | K_pass_stmt
   | K_global_decl
-  | K_nonlocal_decl
   | K_import_plain
   | K_import_as
   | K_from_import
@@ -219,9 +226,20 @@ Definition allowed (k : stmt_kind) : bool :=
   | _ => false
   end.
 
-(* ------------------------------------------------------------ what the unchanged tree drops silently *)
-(* kinds dropped in all four contexts *)
-Definition gap_kinds : list stmt_kind :=
+(* ------------------------------------------------------------ what the tree still drops silently *)
+(* kinds dropped in all four contexts: the documented host-side methods of SerialMonitor (finding
+   F-C07-drop-serial-host-call) *)
+Definition gap_kinds : list stmt_kind := [K_serial_host_call].
+Definition gap_pairs : list (stmt_kind * context) := [].
+Definition known_gaps : list (stmt_kind * context) :=
+  flat_map (fun k => map (pair k) all_contexts) gap_kinds ++ gap_pairs.
+Definition known_gap (k : stmt_kind) (c : context) : bool :=
+  existsb (fun p => kind_eqb k (fst p) && ctx_eqb c (snd p)) known_gaps.
+
+(* ------------------------------------------------------------ what was dropped until the repair *)
+(* `continue` left the list with "fix: translate `continue` instead of silently dropping it"; everything
+   below with "fix: reject statements the transpiler cannot translate instead of dropping them" *)
+Definition former_gap_kinds : list stmt_kind :=
   [K_annassign; K_chained_assign; K_subscript_assign; K_attr_assign;
    K_walrus_expr; K_dev_unknown_method; K_dev_unknown_method_args; K_serial_unknown_method;
    K_undeclared_method_call; K_del_stmt; K_assert_stmt; K_raise_stmt;
@@ -229,16 +247,14 @@ Definition gap_kinds : list stmt_kind :=
    K_bracket_continuation; K_if_inline_body; K_while_inline_body; K_with_stmt;
    K_match_stmt; K_class_def; K_async_def; K_decorator;
    K_while_else; K_for_else; K_for_over_list; K_for_over_name;
-   K_try_finally; K_try_except_else].
-(* `continue` (K_continue_in_while, K_continue_in_for, K_continue_outside_loop) was in this list until
-   the repair "fix: translate `continue` instead of silently dropping it"; it is now pinned below. *)
-(* a `def` inside a block / function / the main loop is dropped (at column 0 it is an ordinary function) *)
-Definition gap_pairs : list (stmt_kind * context) :=
+   K_try_finally; K_try_except_else; K_nonlocal_decl].
+(* a `def` inside a block / function / the main loop (at column 0 it is an ordinary function) *)
+Definition former_gap_pairs : list (stmt_kind * context) :=
   [(K_nested_def, Nested); (K_nested_def, Func); (K_nested_def, MainLoop)].
-Definition known_gaps : list (stmt_kind * context) :=
-  flat_map (fun k => map (pair k) all_contexts) gap_kinds ++ gap_pairs.
-Definition known_gap (k : stmt_kind) (c : context) : bool :=
-  existsb (fun p => kind_eqb k (fst p) && ctx_eqb c (snd p)) known_gaps.
+Definition former_gaps : list (stmt_kind * context) :=
+  flat_map (fun k => map (pair k) all_contexts) former_gap_kinds ++ former_gap_pairs.
+Definition former_gap (k : stmt_kind) (c : context) : bool :=
+  existsb (fun p => kind_eqb k (fst p) && ctx_eqb c (snd p)) former_gaps.
 
 Definition silently_ignored (r : row) : bool := outcome_eqb (row_outcome r) Ignored.
 Definition row_ok (r : row) : bool :=
@@ -260,7 +276,7 @@ Definition pinned (k : stmt_kind) (c : context) : option outcome :=
        | K_continue_outside_loop, MainLoop => Some Translated        (* ends the current pass of loop(): `return;` *)
        | K_continue_outside_loop, _ => Some Rejected                 (* Python: 'continue' not properly in loop *)
        | K_nested_def, Top => Some Translated
-       | _, _ => None
+       | _, _ => if former_gap k c then Some Rejected else None   (* unsupported statement: a diagnostic, never silence *)
        end.
 Definition row_pinned_ok (r : row) : bool :=
   match pinned (row_kind r) (row_ctx r) with
